@@ -57,6 +57,11 @@ REFUSALS = {
     'add_eltorito:load-segment-too-big': ('plain', 'add_eltorito', ['/FOO.;1'], dict(boot_load_seg=65536)),
     'add_symlink:empty-target': ('rr', 'add_symlink', [], dict(symlink_path='/SYM.;1', rr_symlink_name='sym', rr_path='')),
     'add_symlink:empty-udf-target': ('udf', 'add_symlink', [], dict(udf_symlink_path='/sym', udf_target='')),
+    # a Joliet / UDF path that names the root directory itself (K60: used to add an entry without a name)
+    'add_fp:joliet-path-names-the-root': ('joliet', 'add_fp', ['FILE', 4], dict(joliet_path='/.')),
+    'add_directory:udf-path-names-the-root': ('udf', 'add_directory', [], dict(udf_path='/x/..')),
+    'add_hard_link:udf-path-names-the-root': ('udf', 'add_hard_link', [], dict(iso_old_path='/FOO.;1', udf_new_path='/')),
+    'add_directory:joliet-path-names-the-root': ('joliet', 'add_directory', [], dict(joliet_path='/')),
     # multi-namespace edits: a later namespace refuses after an earlier one was applied
     'add_fp:joliet-name-too-long': ('joliet', 'add_fp', ['FILE', 4], dict(iso_path='/BAR.;1', joliet_path='/' + 'x' * 65)),
     'add_fp:joliet-missing-parent': ('joliet', 'add_fp', ['FILE', 4], dict(iso_path='/BAR.;1', joliet_path='/nodir/bar')),
